@@ -1816,10 +1816,10 @@ class VM:
                     return fn(bound_this, *bound_args, *call_args)
 
             else:
-                target = for_receiver(bound_this)
 
                 def bound(*call_args):
-                    return target(*bound_args, *call_args)
+                    # (the receiver is looked at when the bound function is called)
+                    return for_receiver(bound_this)(*bound_args, *call_args)
 
             return bound
 
